@@ -18,6 +18,9 @@ from . import AnalysisBroken
 from .model import BUILTINS, FuncInfo, Program
 from .terms import NONE, TRUE, FALSE, const, head, is_const, strip, subst, walk
 
+# in-place methods of builtin containers: a call ``x.m(args)`` as a statement rebinds x to ('mut', m, old, args, kwargs)
+MUTATORS = {"append", "extend", "update", "add", "insert", "discard", "remove", "setdefault", "sort", "reverse", "clear", "pop", "popitem"}
+
 FALL = ("fall",)
 CONT = ("cont",)
 
@@ -270,6 +273,9 @@ def assigned_names(stmts):
                 out.append((a.asname or a.name).split(".")[0])
         elif isinstance(n, ast.NamedExpr):
             tgt(n.target)
+        elif isinstance(n, ast.Expr) and isinstance(n.value, ast.Call) and isinstance(n.value.func, ast.Attribute) \
+                and isinstance(n.value.func.value, ast.Name) and n.value.func.attr in MUTATORS:
+            out.append(n.value.func.value.id)
         for c in ast.iter_child_nodes(n):
             visit(c)
 
@@ -315,7 +321,7 @@ class Evaluator:
     # ---- ids
     def nid(self, kind, node):
         self._n += 1
-        return (kind, getattr(node, "lineno", 0), getattr(node, "col_offset", 0), self.tag)
+        return ("#" + kind, getattr(node, "lineno", 0), getattr(node, "col_offset", 0), self.tag)
 
     def emit(self, kind, ctx, node, **data):
         ev = Event(kind, ctx, node, data, len(self.events))
@@ -612,6 +618,13 @@ class Evaluator:
     def s_Expr(self, st, env, ctx):
         v = self.ev(st.value, env, ctx)
         self.emit("expr", ctx, st, value=v)
+        c = st.value
+        if isinstance(c, ast.Call) and isinstance(c.func, ast.Attribute) and isinstance(c.func.value, ast.Name) and c.func.attr in MUTATORS:
+            name = c.func.value.id
+            if name in env and self.scopes and name in self.scopes[-1]["locals"] and head(v) == "call":
+                old = env[name]
+                env[name] = ("mut", c.func.attr, old, v[2], v[3])
+                self.emit("mutate", ctx, st, name=name, method=c.func.attr, old=old, args=v[2], kwargs=v[3])
         return env, FALL
 
     def s_Pass(self, st, env, ctx):
